@@ -6,7 +6,7 @@ from vf import gen, corecheck as cc, framework as fw
 RULE = ("scenarios (random API programs with scripted re-entrant callbacks, see vf/gen.py) from the profiles mixed, "
         "hostile_lifetime (bursts past the mailbox capacity; self stop/deregister/unsubscribe with mail in flight; a module "
         "stopped/deregistered/paused by another one while it has events in the same poll batch; events of every kind retained past "
-        "source, module and context; auto-free to 0/1/many recipients; re-subscription with other flags), last_ref / ctx_gone (a module or the whole context goes away inside a callback because the reference given to m_mod_deregister was the last one) (every third mixed/hostile scenario runs without the harness's observation references, so released memory is really released) run on the asan build; "
+        "source, module and context; auto-free to 0/1/many recipients; re-subscription with other flags), shared_signal / oneshot_burst / fd_error (events the receive loop skips), last_ref / ctx_gone (a module or the whole context goes away inside a callback because the reference given to m_mod_deregister was the last one) (every third mixed/hostile scenario runs without the harness's observation references, so released memory is really released) run on the asan build; "
         "plus a slice of fresh scenarios on the plain build under valgrind memcheck; "
         "violated by any ASan/UBSan/LSan/memcheck report or fatal signal, a free() of a block the accounting allocator does not hold, "
         "blocks outstanding after the context is gone and every user reference dropped, a zombie not answering its name, a "
@@ -88,6 +88,13 @@ def build_cases(tier, seed):
         c = cc.Case()
         c.sc, c.profile, c.mode, c.seed = gen.gen_tick_in_flush(seed * 1000 + k), "tick_in_flush", ("loop" if k % 2 else "dispatch"), seed * 1000 + k
         cases.append(c)
+    # the receive loop's skip paths (a descriptor found empty because another module's read consumed the occurrence, one-shot
+    # sources firing in a burst, descriptors in error state): what is skipped must still be released
+    for prof, g in (("shared_signal", gen.gen_shared_signal), ("oneshot_burst", gen.gen_oneshot_burst), ("fd_error", gen.gen_fd_error)):
+        for k in range(max(8, n // 100)):
+            c = cc.Case()
+            c.sc, c.profile, c.mode, c.seed = g(seed * 1000 + k), prof, ("loop" if k % 2 else "dispatch"), seed * 1000 + k
+            cases.append(c)
     for prof, g in (("task_hostile", gen.gen_task_hostile), ("restart_in_stop", gen.gen_restart_in_stop)):
         for k in range(3):
             c = cc.Case()
